@@ -229,5 +229,5 @@ def space(tier):
             for st in p["states"]:
                 st["target_humidity"] = min(st["target_humidity"], 100)
         return p
-    sp.add("random", 3000 if tier == "quick" else 70_000, f_rand)
+    sp.add("random", 3000 if tier == "quick" else 600_000, f_rand)
     return sp
